@@ -43,6 +43,7 @@ namespace ip {
 		: socket_base(ios)
 		, m_connect_timer(ios)
 		, m_recv_timer(ios)
+		, m_resend_timer(ios)
 	{}
 
 	tcp::socket::socket(socket&& s)
@@ -59,6 +60,7 @@ namespace ip {
 		, m_wait_recv_handler(std::move(s.m_wait_recv_handler))
 		, m_recv_buffer(std::move(s.m_recv_buffer))
 		, m_recv_timer(std::move(s.m_recv_timer))
+		, m_resend_timer(std::move(s.m_resend_timer))
 		, m_is_v4(std::move(s.m_is_v4))
 		, m_recv_null_buffers(std::move(s.m_recv_null_buffers))
 		, m_send_null_buffers(std::move(s.m_send_null_buffers))
@@ -235,6 +237,7 @@ namespace ip {
 		}
 
 		// reset socket state
+		m_resend_timer.cancel();
 		m_incoming_queue.clear();
 		m_reorder_buffer.clear();
 		m_outgoing_packets.clear();
@@ -791,6 +794,18 @@ namespace ip {
 		};
 		m_outgoing_packets.push_back(std::move(p));
 
+		if (m_outstanding_packet_sizes.empty())
+		{
+			// nothing is left in flight, so no ACK will come back to trigger
+			// the retransmission: fall back to a retransmission timeout
+			m_resend_timer.expires_after(chrono::milliseconds(200));
+			m_resend_timer.async_wait([fwd](boost::system::error_code const& ec) {
+				if (ec) return;
+				if (auto* s = static_cast<tcp::socket*>(fwd->dst()))
+					s->resend_dropped_packets();
+			});
+		}
+
 		const int packets_in_cwnd = m_cwnd / m_mss;
 
 		// we just recently dropped a packet and cut the cwnd in half,
@@ -802,6 +817,28 @@ namespace ip {
 
 		// TODO: this should really happen one second later to be accurate
 		if (m_cwnd < m_mss) m_cwnd = m_mss;
+	}
+
+	void tcp::socket::resend_dropped_packets()
+	{
+		// the connection may be gone already (end-of-file was read)
+		if (!m_channel)
+		{
+			m_outgoing_packets.clear();
+			return;
+		}
+
+		// Try each waiting packet at most once: a retransmission may be
+		// dropped again right away and come back to the end of this list
+		for (std::size_t n = m_outgoing_packets.size(); n > 0
+			&& !m_outgoing_packets.empty()
+			&& m_bytes_in_flight
+				+ int(m_outgoing_packets.front().buffer.size()) <= m_cwnd; --n)
+		{
+			aux::packet pkt = std::move(m_outgoing_packets.front());
+			m_outgoing_packets.erase(m_outgoing_packets.begin());
+			send_packet(std::move(pkt));
+		}
 	}
 
 	void tcp::socket::incoming_packet(aux::packet p)
@@ -826,18 +863,8 @@ namespace ip {
 				assert(m_bytes_in_flight >= acked_bytes);
 				m_bytes_in_flight -= acked_bytes;
 
-				// potentially resend packets. Try each waiting packet at most
-				// once per ACK: a retransmission may be dropped again right away
-				// and come back to the end of this list
-				for (std::size_t n = m_outgoing_packets.size(); n > 0
-					&& !m_outgoing_packets.empty()
-					&& m_bytes_in_flight
-						+ int(m_outgoing_packets.front().buffer.size()) <= m_cwnd; --n)
-				{
-					aux::packet pkt = std::move(m_outgoing_packets.front());
-					m_outgoing_packets.erase(m_outgoing_packets.begin());
-					send_packet(std::move(pkt));
-				}
+				// potentially resend packets
+				resend_dropped_packets();
 
 				// update cwnd based on the number of bytes ACKed.
 				// every round-trip, increase the window size by one packet
